@@ -142,7 +142,7 @@ func genOnce(mem *MemFS, root string, order compile.VerifLinkOrder, o gen.Option
 func C10(c *core.Child) {
 	outDir := c.Arg("out", "/var/tmp/c10") + ".gen"
 	c.Loop(func(i uint64, r *core.Rand) {
-		o := idlm.SemOpts{MaxFiles: 5, MaxDefs: 6, Services: true, Constants: true, Defaults: true, Dirs: true, ForGen: true, GoAnns: true, Redact: true, PkgNameClash: true, DupLiterals: r.Chance(1, 3), ServiceBias: r.Chance(1, 2), ChainMode: r.Chance(1, 4), ManyTypes: r.Chance(1, 3)}
+		o := idlm.SemOpts{MaxFiles: 5, MaxDefs: 6, Services: true, Constants: true, Defaults: true, Dirs: true, ForGen: true, GoAnns: true, Redact: true, PkgNameClash: true, ServiceBias: r.Chance(1, 2), ChainMode: r.Chance(1, 4), ManyTypes: r.Chance(1, 3)}
 		o.Off = offFromArgs(c)
 		p := idlm.GenProgram(r, o)
 		p.RenderAll(r, idlm.PlainLayout)
